@@ -74,6 +74,11 @@ class C05(Check):
         cfg = calsim.gen_config(rng, rl_prob=0.0, max_bs=3, feature=calsim.SAMPLER_KINDS[i % len(calsim.SAMPLER_KINDS)])
         cfg["ensemble"] = rng.randint(1, 2)
         cfg["N"] = 12
+        for sp in cfg["lineup"]:
+            # constructor defaults (objects of the defining module, not copies that went through JSON) for more of the options:
+            # what a restore brings back is a copy, and must behave like the original
+            if sp["cls"] == "gp" and "acquisition" in sp["opts"] and rng.random() < 0.5:
+                del sp["opts"]["acquisition"], sp["opts"]["jitter"]
         if cfg["sim_length"] is not None:
             cfg["sim_length"] = 12 if cfg["sim_length"] == 12 or cfg["loss"]["cls"] not in ("msm", "gsl", "likelihood") else 17
         heavy = sum(1 for s in cfg["lineup"] if s["cls"] in ("cors", "gp"))
